@@ -525,4 +525,12 @@ def selftest() -> int:
     except common.TLCError:
         wrong_input_rejected = True
     print("wrong written input rejected:", wrong_input_rejected)
+    # the model itself: with a mistaken finalize loop TLC finds a nested context that leaves a placeholder
+    demos = {}
+    for rule in ("flagTA", "two"):
+        rd = tlc("Gen_Nowiki", f"Demo_Nowiki_{rule}.cfg", workers=1, check=False, timeout=600)
+        demos[rule] = "GenInv" in rd.invariant_violated
+    print("Demo configurations violated:", demos)
+    if not all(demos.values()):
+        return 1
     return 0 if got == {2: "mismatch", 4: "placeholder", 5: "payload", 6: "frame", 7: "frame"} and wrong_input_rejected else 1
